@@ -69,6 +69,7 @@ func posdelivVariants(tier string) []vsched.Variant {
 		}
 	}
 	add(posdelivCfg{mode: "recover", pre: 2, from: 1, npub: 3}, 2, 8, 280)
+	add(posdelivCfg{mode: "recover", pre: 2, from: 0, npub: 3, filter: "client", faults: true}, 2, 16, 280)
 	add(posdelivCfg{mode: "recover", pre: 2, from: 1, npub: 2, remove: true}, 2, 8, 280)
 	add(posdelivCfg{mode: "recover", pre: 2, from: 0, npub: 2, histSz: 2}, 2, 8, 280)
 	add(posdelivCfg{mode: "recover", pre: 2, from: 2, npub: 2, staleEp: true}, 2, 4, 280)
